@@ -6,6 +6,14 @@ HERE = os.path.dirname(os.path.dirname(os.path.abspath(__file__)))
 
 # id -> (category, technique, text, note)
 CLAIMED = {
+ "C18": ("other", "writer/reader key-table agreement with key -> attribute -> key round trip, BGR/RGB taint over reaching definitions, generic-reader reachability of savable corrections, constructor-argument dependence vs load write-set (ast, CFG)",
+         "Decides: every metadata key an image class writes is consumed by the constructor chain of the class the npz reader instantiates "
+         "for it and round-trips through its attribute; every cv2-decoded colour array is converted BGR->RGB before it reaches an optical "
+         "image and every optical array written by cv2 comes from to_trichromatic('BGR'); byte strings map to the matching image kind; "
+         "each correction that records a class name is visible to the generic reader, constructible without arguments and loads only keys "
+         "it saved; every attribute read while correcting is restored by load or cannot be changed by a constructor argument. "
+         "Not decided: identical pixel data / dtype after a file round trip, losslessness of codecs (numpy/cv2 I/O behaviour).",
+         "Trusted: python ast parser; sa/cfg.py, sa/state.py; two attributes of CurvatureCorrection (use_cache, cache_path) are exempt by name with a reason."),
  "C19": ("other", "comprehension-structure and axis-discipline lint of the per-patch tables, polynomial normal forms of the corner/centre tables (min terms as atoms) against the axis table, provenance of the patch size, re-evaluation of the bounded-selection rule of Image.subregion (ast)",
          "Narrow claim. Decided: every per-patch table uses rows = outer index over num_patches[0] with pv[0]/ov[0] and columns = inner index "
          "over num_patches[1] with pv[1]/ov[1], and call/set/assemble address patches[row][col] alike; a patch is base.subregion(rois[i][j]) "
